@@ -44,6 +44,12 @@ MUTANTS = {
     "c10-keep-align": ("pulsarbat/transforms/transforms.py", '        kw["freq_align"] = "center"\n', "", ["C10"]),
     "c10-cf-f0": ("pulsarbat/transforms/transforms.py", 'kw["center_freq"] = (f0 + f1) / 2', 'kw["center_freq"] = f0', ["C10"]),
     "c10-no-type": ("pulsarbat/transforms/transforms.py", "if not all(type(s) is sig_type for s in signals):", "if not all(isinstance(s, pb.Signal) for s in signals):", ["C10"]),
+    "c12-start-sign": ("pulsarbat/transforms/transforms.py", "new_start = z.start_time - shift * z.dt", "new_start = z.start_time + shift * z.dt", ["C12"]),
+    "c12-frac-off1": ("pulsarbat/transforms/transforms.py", "        z = type(z).like(z, shifted, start_time=new_start)\n\n    return z[i : i + n]",
+                      "        z = type(z).like(z, shifted, start_time=new_start)\n        return z[i + 1 : i + 1 + n]\n\n    return z[i : i + n]", ["C12"]),
+    "c12-bound-le": ("pulsarbat/transforms/transforms.py", "if (t < 0) or (len(z) < t + n):", "if (t < 0) or (len(z) <= t + n):", ["C12"]),
+    "c12-round": ("pulsarbat/transforms/transforms.py", "if (i := int(t)) < t:", "if (i := round(t)) < t:", ["C12"]),
+    "c12-neg-n": ("pulsarbat/transforms/transforms.py", "    if (n := operator.index(n)) < 0:\n        raise ValueError(\"n must be a non-negative integer.\")\n", "    n = operator.index(n)\n", ["C12"]),
 }
 
 # behaviour-preserving edits: no check may fire
